@@ -104,7 +104,7 @@ func lexSpec(src string) ([]tok, error) {
 				return nil, fmt.Errorf("bad char literal at %d", i)
 			}
 		default:
-			ops := []string{"<==>", "==>", "::", "==", "!=", "<=", ">=", "&&", "||", "!in", ".(", "<", ">", "+", "-", "*", "/", "%", "!", "(", ")", "[", "]", ".", ",", ":", "?"}
+			ops := []string{"<==>", "==>", "::", "==", "!=", "<=", ">=", "&&", "||", "&", "!in", ".(", "<", ">", "+", "-", "*", "/", "%", "!", "(", ")", "[", "]", ".", ",", ":", "?"}
 			matched := false
 			for _, o := range ops {
 				if strings.HasPrefix(src[i:], o) {
@@ -322,6 +322,10 @@ func (p *sparser) unary() *SExpr {
 	if p.isOp("*") {
 		p.next()
 		return &SExpr{Kind: "unary", Op: "*", Args: []*SExpr{p.unary()}}
+	}
+	if p.isOp("&") {
+		p.next()
+		return &SExpr{Kind: "unary", Op: "&", Args: []*SExpr{p.unary()}}
 	}
 	return p.postfix()
 }
